@@ -92,6 +92,10 @@ class Teardown:
             st = add(st, ("must_dec", b))
         else:
             eng.violate("TS-1", "moveout-not-dead:%s" % f, "field `%s` of %s is moved out while the object is not known dead (strong-state %s)" % (f, show(b), "".join(sorted(ss))), ev.b, st)
+        if f == "links":
+            for (g, gbox, gmut) in st.guards:
+                if gbox is None or gbox == b or not st.distinct(gbox, b):
+                    eng.violate("TS-1", "table-moved-while-borrowed", "the link table of %s is moved out while a guard on it is still live; the guard's release will write into moved-out (soon freed) memory" % show(b), ev.b, st)
         if any(fl[0] == "unwinding" for fl in st.flags):
             eng.violate("UNW-1", "moveout-in-cleanup:%s" % f, "an unwinding continuation moves `%s` out of %s" % (f, show(b)), ev.b, st)
         if ev.how == "copy" and ev.get("dst") is not None and box_part(ev.dst) is not None:
@@ -178,6 +182,7 @@ class Teardown:
                 if self.entry_kind == "rc_drop" and not is_elem_box(b):
                     for f in ("value", "links"):
                         if not any(fl[0] in ("dropped", "xfer") and fl[1] == b and fl[2] == f for fl in st.flags) and not any(fl[0] in ("mv", "held") and b in fl and f in fl for fl in st.flags):
+                            eng.violate("TS-3", "release-before-destroy:%s" % f, "the implicit weak of dead %s is released while its `%s` is still in place (if this was the last weak reference the allocation is freed with live contents)" % (show(b), f), ev.b, st)
                             eng.violate("TS-5", "release-without-destroy:%s" % f, "the implicit weak of dead %s is released but its `%s` was never moved out and destroyed on this path" % (show(b), f), ev.b, st)
             st = add(st, ("decw", b))
         return st
